@@ -50,13 +50,14 @@ class Buf:
 
 class Ref:
     """Reference to an lvalue: key (+ optional block for sub-slices)."""
-    __slots__ = ("key", "block", "mut", "unit")
+    __slots__ = ("key", "block", "mut", "unit", "elem")
 
-    def __init__(self, key, block=None, mut=False, unit=None):
+    def __init__(self, key, block=None, mut=False, unit=None, elem=False):
         self.key = key
         self.block = block
         self.mut = mut
         self.unit = unit
+        self.elem = elem   # reference to the generic component of the block (iterator element), not to the sub-slice
 
     def __eq__(self, o):
         return isinstance(o, Ref) and (self.key, self.block) == (o.key, o.block)
@@ -123,6 +124,7 @@ class SymExec:
         self.lazy = {}     # key -> value it got when first read without ever being assigned
         self._loop_heads = {}
         self._refined = []
+        self.imprecise = []   # constructs the interpreter could only over-approximate (rules downgrade absence-based verdicts)
         self.flagfacts = {}  # (bool key, value) -> tuple of fact sets, one per assignment of that literal (alternatives)
         self.pc = []       # path condition: (if-node, branch, cond value) of the enclosing conditionals
 
@@ -286,6 +288,8 @@ class SymExec:
             v = self.st.get(key)
             if isinstance(v, Ref):
                 if v.block is not None:
+                    if v.elem:
+                        return ("elem", v.key, v.block, v.unit)
                     return ("slice", v.key, v.block, v.unit)
                 return ("key", v.key)
             return ("key", key)
@@ -1111,7 +1115,12 @@ class SymExec:
                     return self.for_unrolled(e, a, b)
             if clo == 0 and not incl and self.uses_index(e["body"], pat["id"]):
                 return self.for_component(e, hi)
-        # generic loop (zero or more iterations)
+        shape = self.iter_shape(e["iter"])
+        if shape is not None:
+            unit = self.shape_unit(shape)
+            return self.for_component(e, unit, binder=lambda i: self.bind_iter_pat(pat, self.shape_value(shape, i)))
+        # generic loop (zero or more iterations): element values are opaque -> whatever is computed from them is imprecise
+        self.imprecise.append(("for-over-iterator", e))
         self.eval_iter_side_effects(e["iter"])
 
         itv = None
@@ -1200,7 +1209,106 @@ class SymExec:
             self.st = self.join_states(([self.st] if self.st is not None else []) + outs)
         return Poly.atom("unit")
 
-    def for_component(self, e, hi):
+    # ---- element-wise iterator chains: `a.iter().zip(b.iter()).enumerate()` is a component loop in disguise
+    def iter_shape(self, it):
+        k = it.get("k")
+        if k == "AddrOf":
+            return self.iter_shape_buf(it["e"], bool(it.get("mut")))
+        if k == "MethodCall":
+            nm = it.get("name")
+            recv = it["recv"]
+            if nm in ("iter", "iter_mut", "into_iter"):
+                r = self.range_shape(recv)
+                if r is not None:
+                    return r
+                sub = self.iter_shape(recv) if recv.get("k") == "MethodCall" else None
+                if sub is not None:
+                    return sub
+                return self.iter_shape_buf(recv, nm == "iter_mut")
+            if nm in ("copied", "cloned", "by_ref", "rev") and not it["args"]:
+                return self.iter_shape(recv)
+            if nm == "zip" and len(it["args"]) == 1:
+                a = self.iter_shape(recv)
+                b = self.iter_shape(it["args"][0])
+                if a is not None and b is not None:
+                    return ("zip", a, b)
+                return None
+            if nm == "enumerate" and not it["args"]:
+                a = self.iter_shape(recv)
+                return ("enum", a) if a is not None else None
+            return None
+        r = self.range_shape(it)
+        if r is not None:
+            return r
+        if k in ("Path", "Field"):
+            return self.iter_shape_buf(it, "&mut" in (it.get("ty") or ""))
+        return None
+
+    def range_shape(self, it):
+        rng = self.range_of(it)
+        if rng is not None and rng[0] is not None and rng[1] is not None and not rng[2] and rng[0].is_zero():
+            return ("range", rng[1])
+        return None
+
+    def iter_shape_buf(self, node, mut):
+        try:
+            lv = self.lvalue(node)
+        except Exception:
+            return None
+        if lv[0] == "key":
+            b = self.get(lv[1]) if (lv[1] in self.st or "." in lv[1]) else None
+            if isinstance(b, Buf) and set(b.blocks) <= {0}:
+                return ("buf", lv[1], 0, b.unit if b.unit is not None else b.len, mut)
+            return None
+        if lv[0] == "slice" and isinstance(self.st.get(lv[1]), Buf):
+            return ("buf", lv[1], lv[2], lv[3], mut)
+        return None
+
+    def shape_unit(self, sh):
+        if sh[0] == "range":
+            return sh[1]
+        if sh[0] == "buf":
+            return sh[3]
+        if sh[0] == "enum":
+            return self.shape_unit(sh[1])
+        if sh[0] == "zip":
+            return self.shape_unit(sh[1]) or self.shape_unit(sh[2])
+        return None
+
+    def shape_value(self, sh, i):
+        if sh[0] == "range":
+            return i
+        if sh[0] == "buf":
+            return Ref(sh[1], sh[2], mut=sh[4], unit=sh[3], elem=True)
+        if sh[0] == "enum":
+            return (i, self.shape_value(sh[1], i))
+        if sh[0] == "zip":
+            return (self.shape_value(sh[1], i), self.shape_value(sh[2], i))
+        return self.fresh("it")
+
+    def bind_iter_pat(self, pat, v):
+        k = pat["k"]
+        if k in ("PTuple",) and isinstance(v, tuple) and len(pat["pats"]) == len(v):
+            for p, x in zip(pat["pats"], v):
+                self.bind_iter_pat(p, x)
+            return
+        if k in ("PRef", "PDeref"):
+            self.bind_iter_pat(pat["pat"], v)
+            return
+        if k == "PBind" and isinstance(v, Ref) and v.elem:
+            key = pat["id"]
+            self.names[key] = pat["name"]
+            self.key_ty[key] = pat.get("ty")
+            if "&" in (pat.get("ty") or ""):
+                self.st[key] = v
+            else:
+                self.st[key] = self.read_lv(("elem", v.key, v.block, v.unit))
+            return
+        if isinstance(v, tuple):
+            v = opaque("tuple", [self._p(x) if not isinstance(x, tuple) else Poly.atom("?") for x in v])
+        self.bind_pat(pat, v)
+
+    def for_component(self, e, hi, binder=None):
         """`for i in 0..hi` whose body indexes with i: interpret once for a generic i."""
         pat = e["pat"]
         lid = e["id"]
@@ -1221,8 +1329,11 @@ class SymExec:
                     acc[r] = (cur, ph)
                     self.st[r] = Poly.atom(ph)
         self.comp.append((i_atom, hi))
-        self.st[pat["id"]] = Poly.atom(i_atom)
-        self.names[pat["id"]] = pat["name"]
+        if binder is not None:
+            binder(Poly.atom(i_atom))
+        else:
+            self.st[pat["id"]] = Poly.atom(i_atom)
+            self.names[pat["id"]] = pat["name"]
         n_ex = len(self.exits)
         self.log("comp_enter", loop=lid, unit=hi)
         self.eval(e["body"])
